@@ -219,6 +219,46 @@ func (w *Worktree) Checkout(opts *CheckoutOptions) error {
 		return err
 	}
 
+	ro := &ResetOptions{
+		Mode:       MergeReset,
+		SparseDirs: opts.SparseCheckoutDirectories,
+	}
+	if opts.Force {
+		ro.Mode = HardReset
+	} else if opts.Keep {
+		ro.Mode = SoftReset
+	}
+
+	// Everything that can refuse the checkout is evaluated before the branch
+	// is created and HEAD is moved, so that a refused checkout leaves the
+	// repository as it was.
+	if ro.Mode == MergeReset {
+		cfg, err := w.r.Config()
+		if err != nil {
+			return err
+		}
+
+		unstaged, err := w.containsUnstagedChanges(cfg)
+		if err != nil {
+			return err
+		}
+
+		if unstaged {
+			return ErrUnstagedChanges
+		}
+	}
+
+	// For HardReset and KeepReset, capture the current tree BEFORE updating
+	// HEAD. This ensures resetWorktreeToTree correctly diffs from where we
+	// actually are, not from where HEAD will point after the update.
+	var err error
+	if ro.Mode == HardReset || ro.Mode == KeepReset {
+		ro.fromTree, err = w.headTree()
+		if err != nil {
+			return err
+		}
+	}
+
 	if opts.Create {
 		if err := w.createBranch(opts); err != nil {
 			return err
@@ -230,26 +270,7 @@ func (w *Worktree) Checkout(opts *CheckoutOptions) error {
 		return err
 	}
 
-	ro := &ResetOptions{
-		Commit:     c,
-		Mode:       MergeReset,
-		SparseDirs: opts.SparseCheckoutDirectories,
-	}
-	if opts.Force {
-		ro.Mode = HardReset
-	} else if opts.Keep {
-		ro.Mode = SoftReset
-	}
-
-	// For HardReset and KeepReset, capture the current tree BEFORE updating
-	// HEAD. This ensures resetWorktreeToTree correctly diffs from where we
-	// actually are, not from where HEAD will point after the update.
-	if ro.Mode == HardReset || ro.Mode == KeepReset {
-		ro.fromTree, err = w.headTree()
-		if err != nil {
-			return err
-		}
-	}
+	ro.Commit = c
 
 	if !opts.Hash.IsZero() && !opts.Create {
 		err = w.setHEADToCommit(opts.Hash)
@@ -285,6 +306,11 @@ func (w *Worktree) createBranch(opts *CheckoutOptions) error {
 		}
 
 		opts.Hash = ref.Hash()
+	}
+
+	// The new branch must point at something that can be checked out.
+	if _, err := w.getCommitFromCheckoutOptions(&CheckoutOptions{Hash: opts.Hash}); err != nil {
+		return err
 	}
 
 	return w.r.Storer.SetReference(
